@@ -20,6 +20,7 @@ import (
 	"encoding/json"
 	"strings"
 
+	"github.com/high-moctane/mocrelay"
 	"verif/harness/common"
 )
 
@@ -52,11 +53,12 @@ func c10Decode(ty string, text []byte) (o Obs, p any) {
 		}
 	}()
 	if ty == "parse" {
-		o = parseClient(text)
-		if o.R == "val" {
-			p = fromX(*o.V)
+		m, err := mocrelay.ParseClientMsg(text)
+		if err != nil {
+			return Obs{R: "err"}, nil
 		}
-		return
+		x := toX(m)
+		return Obs{R: "val", V: &x}, m
 	}
 	t := newTarget(ty)
 	if err := json.Unmarshal(text, t); err != nil {
@@ -68,7 +70,7 @@ func c10Decode(ty string, text []byte) (o Obs, p any) {
 
 // c10Text: run one text against one target ("parse" or a type name)
 func c10Text(cls, ty string, text []byte) c10Case {
-	c := c10Case{Cls: cls, Ty: ty, Text: hexOf(text), Len: len(text)}
+	c := c10Case{Cls: cls, Ty: ty, Text: textOf(text), Len: len(text)}
 	o1, p := c10Decode(ty, text)
 	j, ok := parseJV(text, c10MaxDepth, c10MaxSize)
 	if !ok {
@@ -146,9 +148,9 @@ func c10Str(r *common.Rand) string { return common.Pick(r, c10Strs) }
 
 func c10Num(r *common.Rand) JV {
 	switch k := r.Intn(100); {
-	case k < 72:
+	case k < 84:
 		return jInt(common.Pick(r, c10Ints))
-	case k < 87:
+	case k < 93:
 		return common.Pick(r, c10BigLits)
 	default:
 		return jFrac(common.Pick(r, c10Fracs))
@@ -294,7 +296,7 @@ func c10ShapeJV(t string, r *common.Rand) JV {
 			}
 			m = append(m, JMember{ak, av})
 		}
-		if r.Chance(50) {
+		if len(m) >= 2 && r.Chance(50) {
 			m[0], m[len(m)-1] = m[len(m)-1], m[0]
 		}
 		return jArr(lbl(), jStr(c10Str(r)), JV{T: 'o', O: m})
@@ -320,10 +322,28 @@ var c10OtherKeys = []string{"x", "ID", "Kind", "extra", "", "#ee", "search", "Id
 func c10Mutate(r *common.Rand, root *JV) string {
 	var nodes []*JV
 	c10Nodes(root, &nodes)
-	n := nodes[r.Intn(len(nodes))]
+	var objs, arrs []*JV
+	for _, x := range nodes {
+		switch x.T {
+		case 'o':
+			objs = append(objs, x)
+		case 'a':
+			arrs = append(arrs, x)
+		}
+	}
+	var n *JV
+	switch pick := r.Intn(100); {
+	case pick < 40 && len(objs) > 0:
+		n = objs[r.Intn(len(objs))]
+	case pick < 65 && len(arrs) > 0:
+		n = arrs[r.Intn(len(arrs))]
+	default:
+		n = nodes[r.Intn(len(nodes))]
+	}
+	isLabel := root.T == 'a' && len(root.A) > 0 && n == &root.A[0]
 	switch n.T {
 	case 'a':
-		switch r.Intn(6) {
+		switch r.Intn(5) {
 		case 0:
 			if len(n.A) > 0 {
 				i := r.Intn(len(n.A))
@@ -346,7 +366,7 @@ func c10Mutate(r *common.Rand, root *JV) string {
 			}
 		}
 	case 'o':
-		switch r.Intn(7) {
+		switch r.Intn(6) {
 		case 0:
 			if len(n.O) > 0 {
 				i := r.Intn(len(n.O))
@@ -383,7 +403,7 @@ func c10Mutate(r *common.Rand, root *JV) string {
 			}
 		}
 	case 's':
-		if r.Chance(40) {
+		if isLabel && r.Chance(60) {
 			n.S = common.Pick(r, []string{"EVENT", "REQ", "CLOSE", "AUTH", "COUNT", "OK", "EOSE", "NOTICE", "CLOSED", "event", "EVENT_", ""})
 			return "label-swap"
 		}
@@ -678,10 +698,7 @@ func c10GenRaw(r *common.Rand) c10Case {
 		if r.Chance(30) {
 			open, cl = `{"a":`, "}"
 		}
-		core := strings.Repeat(open, n) + common.Pick(r, []string{"", "1", `"x"`}) + strings.Repeat(cl, n)
-		if open != "[" && strings.HasSuffix(strings.Repeat(open, n), ":") && !strings.Contains(core, ":1") && !strings.Contains(core, `:"x"`) {
-			core = strings.Repeat(open, n) + "null" + strings.Repeat(cl, n)
-		}
+		core := strings.Repeat(open, n) + common.Pick(r, []string{"", "1", `"x"`, "null"}) + strings.Repeat(cl, n)
 		var text string
 		ty := common.Pick(r, append([]string{"parse"}, allTypes...))
 		switch r.Intn(5) {
